@@ -69,7 +69,8 @@ class Sched(object):
     # ---- naming --------------------------------------------------------------------------
     def name(self, obj, role):
         self.roles[id(obj)] = role
-        self.keep.append(obj)
+        if KEEP_NAMED:
+            self.keep.append(obj)
         return obj
 
     def role(self, obj, kind="o"):
@@ -119,6 +120,7 @@ class Sched(object):
 
 
 S = None
+KEEP_NAMED = True    # False: named objects are not kept alive by the scheduler (reference-retention checks)
 TIMER_EPS = 0        # modules whose code compares `deadline < now` set a small positive value
 _local = _t.local()
 
